@@ -209,13 +209,20 @@ package tor
 
 // webseedGR: every chunk computed by fileChunks is requested with a range
 // that lies inside its file (Get's precondition), into one writer confined
-// to the range of the fetch; the writer is closed on every path.
+// to the range of the fetch; the writer is closed on every path; a file is only
+// requested when the previous file's chunk was delivered IN FULL (ghost of
+// Get's count: otherwise its bytes would land at the wrong offset).
 //@ func webseedGR
 //@   requires ctx != nil && ws != nil && t != nil && t.Log != nil && GeomSizes(t) && FilesEach(t) && FilesChain(t) && FilesEnds(t) && FilesBound(t)
 //@   requires int64(index)*int64(t.Pieces.PieceSize()) + int64(offset) + int64(length) <= t.Pieces.Length()
 //@   requires [websOn] t.useWebseeds
+//@   ghostvar Ghost_full bool
+//@   ghostinit Ghost_full = true
+//@   atcall   Get :: true :: Ghost_full = ($r0 == length)
 //@   modifies *
+//@   assertcall [prevfull] Get :: Ghost_full
 //@   loop 1
+//@     invariant [full] Ghost_full
 //@     invariant [inside] forall k int :: 0 <= k && k < len(fcs) ==> 0 <= fcs[k].offset && 0 <= fcs[k].length && fcs[k].offset + fcs[k].length <= fcs[k].filelength
 //@     invariant [w] writer != nil
 //@   props    C14 C18
